@@ -1,5 +1,11 @@
 import Tx3Proofs.C11
+import Tx3Proofs.C11Roundtrip
 #print axioms Tx3.Cbor.beNat_natToBytes
 #print axioms Tx3.Wire.C11_int128_roundtrip
 #print axioms Tx3.Wire.C11_bytes_roundtrip
 #print axioms Tx3.Wire.C11_version_gate
+#print axioms Tx3.Wire.strOf_txtBytes
+#print axioms Tx3.Wire.txtBytes_inj
+#print axioms Tx3.Wire.C11_expr_roundtrip
+#print axioms Tx3.Wire.C11_expr_injective
+#print axioms Tx3.Wire.C11_tx_roundtrip
